@@ -91,9 +91,34 @@ def _(rb_actions: ACTIONS) -> Opt[Int]:
     raises('rbql_engine.RbqlParsingError', 'LIMIT' in rb_actions and not int_ok(rb_actions['LIMIT']['text']), 'limit_is_not_a_number')
 
 
-@trusted('rbql_engine.translate_except_expression', trusted='A-PARSE: EXCEPT list -> (output header, select_except call text)')
+@pred
+def n_except(e):
+    return len(str_split(e, ','))
+
+
+@contract('rbql_engine.translate_except_expression', name='C01.except.translate', props=['C01', 'C07', 'C08'])
 def _(except_expression: Str, input_variables_map: VMap, string_literals: List[Str], input_header: Opt[List[Str]]) -> Tuple[Opt[List[Str]], Str]:
-    raises('rbql_engine.RbqlParsingError', True, 'unknown_field')
+    # `* EXCEPT n1, n2, ...`: every listed name (blanks stripped, string literals restored) must be a variable of the input table; the fields
+    # dropped are exactly the ones those names denote, whatever order they are written in; the header loses the same positions as the records
+    local_types(skip_vars=List[Str], skip_indices=List[Int])
+    loop_types(0, var_name=Str, var_info=Opt[NT['rbql_engine.VariableInfo']])
+    invariant(0, 0 <= __i and __i <= len(skip_vars) and len(skip_vars) == n_except(except_expression) and is_fresh(skip_indices) and not same(skip_indices, skip_vars), 'idx')
+    invariant(0, forall(Int, lambda j: implies(0 <= j and j < len(skip_vars), contents(skip_vars)[j] == ws_strip(str_split(except_expression, ',')[j]))), 'names_as_listed')
+    invariant(0, forall(Int, lambda j: implies(0 <= j and j < __i, not is_none(dict_map(input_variables_map)[except_name(except_expression, contents(string_literals), j)]))), 'names_so_far_are_variables')
+    invariant(0, len(skip_indices) == __i and contents(skip_indices) == except_indices(dict_map(input_variables_map), except_expression, contents(string_literals), __i), 'indices_so_far')
+    ensures(forall(Int, lambda j: implies(0 <= j and j < n_except(except_expression), not is_none(dict_map(input_variables_map)[except_name(except_expression, contents(string_literals), j)]))), 'every_listed_name_is_a_variable')
+    ensures(is_none(result[0]) == is_none(input_header), 'header_iff_input_header')
+    ensures(implies(not is_none(input_header), is_fresh(opt_val(result[0]))
+                    and contents(opt_val(result[0])) == except_spec_str(contents(opt_val(input_header)), ssort_ints(except_indices(dict_map(input_variables_map), except_expression, contents(string_literals), n_except(except_expression))),
+                                                                    len(opt_val(input_header)))), 'header_loses_exactly_the_listed_columns')
+    exit_hint(len(skip_indices) == n_except(except_expression), 'witness_len')
+    exit_hint(forall(Int, lambda i: implies(0 <= i and i < len(skip_indices), contents(skip_indices)[i] == str_of_int(ssort_ints(except_indices(dict_map(input_variables_map), except_expression, contents(string_literals), n_except(except_expression)))[i]))), 'witness_items', hide=['ssort_ints', 'ins_int', 'except_indices', 'str_split', 'combine_upto', 'ws_strip', 'str_join', 'except_spec_str'])
+    exit_hint(result[1] == 'select_except(record_a, [' + str_join(',', contents(skip_indices)) + '])', 'witness_text')
+    ensures(exists(Seq[Str], lambda S: len(S) == n_except(except_expression)
+                   and forall(Int, lambda i: implies(0 <= i and i < len(S), S[i] == str_of_int(ssort_ints(except_indices(dict_map(input_variables_map), except_expression, contents(string_literals), n_except(except_expression)))[i])))
+                   and result[1] == 'select_except(record_a, [' + str_join(',', S) + '])'), 'records_lose_exactly_the_listed_columns')
+    ensures(implies(not is_none(input_header), contents(opt_val(input_header)) == old(contents(opt_val(input_header)))), 'input_header_untouched')
+    raises('rbql_engine.RbqlParsingError', exists(Int, lambda j: 0 <= j and j < n_except(except_expression) and is_none(dict_map(input_variables_map)[except_name(except_expression, contents(string_literals), j)])), 'unknown_field')
 
 
 @trusted('rbql_engine.translate_select_expression', trusted='A-PARSE: select list -> (expression text, text for the header parser)')
